@@ -293,6 +293,17 @@ func runC17(c *Ctx, r *Report, tier string) {
 		c.wrapCutRule(r, "WRAP", wt, lVal)
 		// no shortcut around the paragraph loop: embedded newlines get the continuation prefix on every path
 		for _, ret := range returnsOf(wt) {
+			// (a fast path is harmless when the text has a single paragraph that already fits: it must return exactly the trimmed text)
+			if c.term(ret.Results[0]) == "call:strings.TrimSpace(P0)" {
+				_, oneLine := c.Requires(wt, isInstr(ret), litIs(`has(P0, "\n")`, false), nil)
+				_, fits := c.Requires(wt, isInstr(ret), func(l Lit) bool {
+					return !l.Pos && strings.HasPrefix(l.Term, "lt(phi{") && strings.HasSuffix(l.Term, ", len(call:strings.TrimSpace(P0)))") || l.Pos && strings.HasPrefix(l.Term, "lt(len(call:strings.TrimSpace(P0)), ")
+				}, nil)
+				if oneLine && fits {
+					r.OK("WRAP", wn, "every result went through the per-paragraph loop", c.ipos(ret), "fast path: returns TrimSpace(text) REQ(no newline in text) ∧ REQ(len(trimmed) ≤ width) — what the loop yields for that input")
+					continue
+				}
+			}
 			c.mptRule(r, "WRAP", wt, ret, "every result went through the per-paragraph loop", c.isCallTo("strings.Split"), "call strings.Split(s, \"\\n\")", nil)
 		}
 	}
